@@ -133,6 +133,172 @@ theorem Fits.use_mem {s : RefSt} {env : Env} {n : Name} (h : Fits G s (s.use env
   obtain ⟨⟨l, hl, _⟩, _⟩ := h
   rw [hl]; simp [RefSt.use]
 
+/-! ### Declarations are not uses -/
+
+variable (G) in
+/-- no record of the walk lies at position `q` -/
+def NotUse (q : Nat) : Prop := ∀ r ∈ G, r.1 ≠ q
+variable (G) in
+def EnvOK (env : Env) : Prop := ∀ e ∈ env, NotUse G e.2
+variable (G) in
+/-- every recorded resolution points to a position that is not a use -/
+def RecOK (out : List Res) : Prop := ∀ r ∈ out, ∀ d, r.2 = some d → NotUse G d
+
+theorem RecOK.use {s : RefSt} {env : Env} (hr : RecOK G s.out) (he : EnvOK G env) (n : Name) :
+    RecOK G (s.use env n).out := by
+  intro r hm d hd
+  simp only [RefSt.use, List.mem_cons] at hm
+  rcases hm with rfl | hm
+  · exact he _ (lookupEnv_mem hd)
+  · exact hr r hm d hd
+
+theorem RecOK.uses {env : Env} (he : EnvOK G env) (vars : List Name) : ∀ s : RefSt, RecOK G s.out →
+    RecOK G (s.uses env vars).out := by
+  induction vars with
+  | nil => intro s h; exact h
+  | cons v vs ih => intro s h; exact ih _ (h.use he v)
+
+theorem EnvOK.bindNames (ns : List Name) : ∀ (env : Env) (p : Nat), EnvOK G env →
+    (∀ q, p ≤ q → q < p + 2 * ns.length → NotUse G q) → EnvOK G (bindNames env p ns) := by
+  induction ns with
+  | nil => intro env p h _; exact h
+  | cons n ns ih =>
+    intro env p h hq
+    simp only [Scope.bindNames]
+    apply ih
+    · intro e he
+      rcases List.mem_cons.mp he with rfl | he
+      · exact hq p (Nat.le_refl _) (by simp)
+      · exact h e he
+    · intro q h1 h2; exact hq q (by omega) (by simp only [List.length_cons]; omega)
+
+theorem EnvOK.cons {env : Env} (h : EnvOK G env) (n : Name) (q : Nat) (hq : NotUse G q) : EnvOK G ((n, q) :: env) := by
+  intro e he
+  rcases List.mem_cons.mp he with rfl | he
+  · exact hq
+  · exact h e he
+
+/-- positions of a stretch of tokens that only skips are not uses -/
+theorem Fits.skipGap {s s' : RefSt} (h : Fits G s s') (ta tb : Nat) (hsuf : Shape (s.skip tb) s') :
+    ∀ q, s.pos + 2 * ta ≤ q → q < s.pos + 2 * tb → NotUse G q := by
+  intro q h1 h2
+  have hf : Fits G (s.skip ta) (s.skip tb) := h.sub (Shape.skip s ta) hsuf
+  exact hf.gap rfl q (by simpa using h1) (by simpa using h2)
+
+mutual
+theorem recExpr : ∀ (e : Expr) (env : Env) (s : RefSt), Fits G s (refExpr env s e) → EnvOK G env → RecOK G s.out →
+    RecOK G (refExpr env s e).out
+  | .name n, env, s, h, he, hr => by simp only [refExpr]; exact hr.use he n
+  | .lit, env, s, h, he, hr => by simp only [refExpr]; exact hr
+  | .call f args, env, s, h, he, hr => by
+    simp only [refExpr] at h ⊢
+    have ha := h.sub ((Shape.use s env f).then_skip 1) (Shape.skip _ 1)
+    exact recExprs args env _ ha he (hr.use he f)
+  | .func ps body, env, s, h, he, hr => by
+    simp only [refExpr] at h ⊢
+    have hb := h.sub (Shape.skip s (3 + ps.length)) (Shape.skip _ 1)
+    have hg := h.skipGap 2 (3 + ps.length) ((shapeBlock body _ _).then_skip 1)
+    exact (recBlock body _ _ hb (EnvOK.bindNames ps env (s.pos + 4) he
+      (fun q h1 h2 => hg q (by omega) (by omega))) hr).1
+theorem recExprs : ∀ (es : List Expr) (env : Env) (s : RefSt), Fits G s (refExprs env s es) → EnvOK G env →
+    RecOK G s.out → RecOK G (refExprs env s es).out
+  | [], env, s, h, he, hr => by simp only [refExprs]; exact hr
+  | e :: es, env, s, h, he, hr => by
+    simp only [refExprs] at h ⊢
+    exact recExprs es env _ (h.sub (shapeExpr e env s) (Shape.refl _)) he
+      (recExpr e env s (h.sub (Shape.refl s) (shapeExprs es env _)) he hr)
+theorem recStat : ∀ (st : Stat) (env : Env) (s : RefSt), Fits G s (refStat env s st).1 → EnvOK G env →
+    RecOK G s.out → RecOK G (refStat env s st).1.out ∧ EnvOK G (refStat env s st).2
+  | .locl names vals, env, s, h, he, hr => by
+    simp only [refStat] at h ⊢
+    have hg := h.skipGap 1 (1 + names.length + eqTokens vals) (shapeExprs vals env _)
+    have hv := h.sub (Shape.skip s (1 + names.length + eqTokens vals)) (Shape.refl _)
+    exact ⟨recExprs vals env _ hv he hr, EnvOK.bindNames names env (s.pos + 2) he
+      (fun q h1 h2 => hg q (by omega) (by omega))⟩
+  | .assign vars vals, env, s, h, he, hr => by
+    simp only [refStat] at h ⊢
+    have hv := h.sub ((Shape.uses env vars s).then_skip 1) (Shape.refl _)
+    exact ⟨recExprs vals env _ hv he (RecOK.uses he vars s hr), he⟩
+  | .localFunc n ps body, env, s, h, he, hr => by
+    simp only [refStat] at h ⊢
+    have hsuf : Shape (s.skip (5 + ps.length)) ((refBlock (bindNames ((n, s.pos + 4) :: env) (s.pos + 8) ps) (s.skip (5 + ps.length)) body).1.skip 1) :=
+      (shapeBlock body _ _).then_skip 1
+    have hg := h.skipGap 2 (5 + ps.length) hsuf
+    have hb := h.sub (Shape.skip s (5 + ps.length)) (Shape.skip _ 1)
+    have he1 : EnvOK G ((n, s.pos + 4) :: env) := he.cons n _ (hg _ (by omega) (by omega))
+    exact ⟨(recBlock body _ _ hb (EnvOK.bindNames ps _ (s.pos + 8) he1
+      (fun q h1 h2 => hg q (by omega) (by omega))) hr).1, he1⟩
+  | .funcStat n ps body, env, s, h, he, hr => by
+    simp only [refStat] at h ⊢
+    have hb := h.sub (((Shape.skip s 1).trans (Shape.use _ env n)).then_skip (2 + ps.length)) (Shape.skip _ 1)
+    have hgap : Fits G ((s.skip 1).use env n) (((s.skip 1).use env n).skip (2 + ps.length)) :=
+      h.sub ((Shape.skip s 1).trans (Shape.use _ env n)) ((shapeBlock body _ _).then_skip 1)
+    have hr1 : RecOK G ((s.skip 1).use env n).out := RecOK.use (s := s.skip 1) hr he n
+    exact ⟨(recBlock body _ _ hb (EnvOK.bindNames ps env (s.pos + 6) he
+      (fun q h1 h2 => hgap.gap rfl q (by simp; omega) (by simp; omega))) hr1).1, he⟩
+  | .forNum v e1 e2 body, env, s, h, he, hr => by
+    simp only [refStat] at h ⊢
+    have hg := h.skipGap 1 3
+      (((((shapeExpr e1 env _)).trans (shapeExpr e2 env _)).then_skip 1).trans (shapeBlock body _ _) |>.then_skip 1)
+    have h1 := h.sub (Shape.skip s 3)
+      ((((shapeExpr e2 env (refExpr env (s.skip 3) e1)).then_skip 1).trans (shapeBlock body ((v, s.pos + 2) :: env) _)).then_skip 1)
+    have h2 := h.sub ((Shape.skip s 3).trans (shapeExpr e1 env _))
+      (((Shape.skip (refExpr env (refExpr env (s.skip 3) e1) e2) 1).trans (shapeBlock body ((v, s.pos + 2) :: env) _)).then_skip 1)
+    have hb := h.sub ((((Shape.skip s 3).trans (shapeExpr e1 env _)).trans (shapeExpr e2 env _)).then_skip 1) (Shape.skip _ 1)
+    have r1 := recExpr e1 env (s.skip 3) h1 he hr
+    have r2 := recExpr e2 env _ h2 he r1
+    exact ⟨(recBlock body _ _ hb (he.cons v _ (hg _ (by omega) (by omega))) r2).1, he⟩
+  | .forIn vs e body, env, s, h, he, hr => by
+    simp only [refStat] at h ⊢
+    have hg := h.skipGap 1 (2 + vs.length)
+      ((((shapeExpr e env _)).then_skip 1).trans (shapeBlock body _ _) |>.then_skip 1)
+    have h1 := h.sub (Shape.skip s (2 + vs.length))
+      (((Shape.skip (refExpr env (s.skip (2 + vs.length)) e) 1).trans (shapeBlock body (bindNames env (s.pos + 2) vs) _)).then_skip 1)
+    have hb := h.sub (((Shape.skip s (2 + vs.length)).trans (shapeExpr e env _)).then_skip 1) (Shape.skip _ 1)
+    have r1 := recExpr e env (s.skip (2 + vs.length)) h1 he hr
+    exact ⟨(recBlock body _ _ hb (EnvOK.bindNames vs env (s.pos + 2) he
+      (fun q h1 h2 => hg q (by omega) (by omega))) r1).1, he⟩
+  | .while_ c body, env, s, h, he, hr => by
+    simp only [refStat] at h ⊢
+    have h1 := h.sub (Shape.skip s 1)
+      (((Shape.skip (refExpr env (s.skip 1) c) 1).trans (shapeBlock body env _)).then_skip 1)
+    have hb := h.sub (((Shape.skip s 1).trans (shapeExpr c env _)).then_skip 1) (Shape.skip _ 1)
+    exact ⟨(recBlock body env _ hb he (recExpr c env (s.skip 1) h1 he hr)).1, he⟩
+  | .repeat_ body c, env, s, h, he, hr => by
+    simp only [refStat] at h ⊢
+    have hb := h.sub (Shape.skip s 1)
+      ((Shape.skip (refBlock env (s.skip 1) body).1 1).trans (shapeExpr c (refBlock env (s.skip 1) body).2 _))
+    have hc := h.sub (((Shape.skip s 1).trans (shapeBlock body env _)).then_skip 1) (Shape.refl _)
+    obtain ⟨b1, b2⟩ := recBlock body env (s.skip 1) hb he hr
+    exact ⟨recExpr c _ _ hc b2 b1, he⟩
+  | .do_ body, env, s, h, he, hr => by
+    simp only [refStat] at h ⊢
+    have hb := h.sub (Shape.skip s 1) (Shape.skip _ 1)
+    exact ⟨(recBlock body env (s.skip 1) hb he hr).1, he⟩
+  | .if_ c t e, env, s, h, he, hr => by
+    simp only [refStat] at h ⊢
+    have h1 := h.sub (Shape.skip s 1)
+      (((((Shape.skip (refExpr env (s.skip 1) c) 1).trans (shapeBlock t env _)).then_skip 1).trans (shapeBlock e env _)).then_skip 1)
+    have ht := h.sub (((Shape.skip s 1).trans (shapeExpr c env _)).then_skip 1)
+      (((Shape.skip (refBlock env ((refExpr env (s.skip 1) c).skip 1) t).1 1).trans (shapeBlock e env _)).then_skip 1)
+    have hel := h.sub (((((Shape.skip s 1).trans (shapeExpr c env _)).then_skip 1).trans (shapeBlock t env _)).then_skip 1)
+      (Shape.skip _ 1)
+    have r1 := recExpr c env (s.skip 1) h1 he hr
+    have r2 := (recBlock t env _ ht he r1).1
+    exact ⟨(recBlock e env _ hel he r2).1, he⟩
+  | .callS f args, env, s, h, he, hr => by
+    simp only [refStat] at h ⊢
+    have ha := h.sub ((Shape.use s env f).then_skip 1) (Shape.skip _ 1)
+    exact ⟨recExprs args env _ ha he (hr.use he f), he⟩
+theorem recBlock : ∀ (b : List Stat) (env : Env) (s : RefSt), Fits G s (refBlock env s b).1 → EnvOK G env →
+    RecOK G s.out → RecOK G (refBlock env s b).1.out ∧ EnvOK G (refBlock env s b).2
+  | [], env, s, h, he, hr => by simp only [refBlock]; exact ⟨hr, he⟩
+  | st :: rest, env, s, h, he, hr => by
+    simp only [refBlock] at h ⊢
+    obtain ⟨a1, a2⟩ := recStat st env s (h.sub (Shape.refl s) (shapeBlock rest _ _)) he hr
+    exact recBlock rest _ _ (h.sub (shapeStat st env s) (Shape.refl _)) a2 a1
+end
+
 /-! ### Token by token -/
 
 variable (E : List Nat) (d : Nat) (new : Name)
@@ -389,5 +555,59 @@ theorem substBlock_eq : ∀ (b : List Stat) (env : Env) (s : RefSt) (pos : Nat),
 end
 
 end Fits
+
+/-! ### The whole program -/
+
+theorem pairwise_identify : ∀ {out : List Res}, out.Pairwise (fun a c => c.1 < a.1) →
+    ∀ x ∈ out, ∀ y ∈ out, x.1 = y.1 → x = y
+  | [], _ => fun x hx => by cases hx
+  | z :: rest, h => by
+    rw [List.pairwise_cons] at h
+    intro x hx y hy hxy
+    rcases List.mem_cons.mp hx with hx1 | hx1
+    · rcases List.mem_cons.mp hy with hy1 | hy1
+      · rw [hx1, hy1]
+      · rw [hx1] at hxy; have := h.1 y hy1; omega
+    · rcases List.mem_cons.mp hy with hy1 | hy1
+      · rw [hy1] at hxy; have := h.1 x hx1; omega
+      · exact pairwise_identify h.2 x hx1 y hy1 hxy
+
+/-- the record list of a program's walk -/
+def recordsOf (p : List Stat) : List Res := (refBlock [] { pos := startPos, out := [] } p).1.out
+
+theorem reference_eq_reverse (p : List Stat) : reference p = (recordsOf p).reverse := rfl
+
+theorem fits_whole (p : List Stat) :
+    Fits (recordsOf p) { pos := startPos, out := [] } (refBlock [] { pos := startPos, out := [] } p).1 :=
+  ⟨⟨[], rfl, fun _ h => by cases h⟩, fun _ h => by cases h⟩
+
+/-- a position a use resolves to is never the position of a use -/
+theorem resolved_decl_not_use (p : List Stat) (u d : Nat) (h : (u, some d) ∈ reference p) :
+    ∀ r ∈ reference p, r.1 ≠ d := by
+  have hrec := (recBlock p [] _ (fits_whole p) (fun _ h => by cases h) (fun _ h => by cases h)).1
+  intro r hr
+  rw [reference_eq_reverse, List.mem_reverse] at h hr
+  exact hrec (u, some d) h d rfl r hr
+
+/-- **Applying the rename edits at their token positions is α-renaming through the environment.** -/
+theorem subst_eq_alpha (p : List Stat) (d : Nat) (new : Name) (hd : ∀ r ∈ reference p, r.1 ≠ d) :
+    substBlock (renameEdits (reference p) d) new startPos p = alphaProg d new p := by
+  have hN := pairwise_identify (reference_outOk p).2
+  have h := substBlock_eq (G := recordsOf p) (renameEdits (reference p) d) d new
+    (by
+      intro t
+      simp only [renameEdits, List.contains_iff_mem, List.mem_cons, reference_eq_reverse]
+      constructor
+      · rintro (h | h)
+        · exact Or.inl h
+        · right; have := cellsOf_mem h; simpa using this
+      · rintro (h | h)
+        · exact Or.inl h
+        · right
+          simp only [cellsOf, List.mem_map, List.mem_filter, decide_eq_true_eq]
+          exact ⟨(t, some d), ⟨by simpa using h, rfl⟩, rfl⟩)
+    hN (by intro r hr; exact hd r (by rw [reference_eq_reverse]; simpa using hr))
+    p [] { pos := startPos, out := [] } startPos rfl (fits_whole p)
+  exact h.1
 
 end Scope
